@@ -140,6 +140,18 @@ def _output_case(draw, cfg=None):
     vals = draw(gen.values(T, cfg))
     desc = draw(gen.encode(T, vals, cfg))
     _inject(draw, desc)
+    if draw(st.integers(0, 11)) == 0:
+        # deep nesting on the output side: tojson_part recursion through many list levels
+        n = len(M.decode(desc)[1])
+        for level in range(draw(st.sampled_from([10, 30, 60, 120]))):
+            cls = draw(st.sampled_from(["ListOffsetArray64", "ListOffsetArray32", "RegularArray", "ListArray64"]))
+            if cls == "RegularArray":
+                desc = {"class": cls, "content": desc, "size": n, "zeros_length": 1}
+            elif cls == "ListArray64":
+                desc = {"class": cls, "starts": [0], "stops": [n], "content": desc}
+            else:
+                desc = {"class": cls, "offsets": [0, n], "content": desc}
+            n = 1
     sp = draw(_specials(4))
     cx = list(draw(st.permutations(["r", "i", "real", "imag", "re im", "ℜ", 'q"']))[:2]) if draw(st.integers(0, 3)) > 0 else \
         [draw(st.sampled_from([None, "r"])), None]
@@ -925,6 +937,8 @@ def run_output(case):
     mx, tf, _ = text_features(data)
     for f in tf & {"escape", "nonascii", "non_int32_number", "object"}:
         tags.add("has:" + f)
+    if mx >= 10:
+        tags.add("out:deep_nesting")
     nontrivial = mx >= 2 and bool(tf & {"escape", "non_int32_number"})
     return {"tags": sorted(tags), "nontrivial": nontrivial, "sample_class": "output"}
 
@@ -1285,6 +1299,22 @@ def run_pout(case):
     if not jsame(expected, parsed, tol=o["maxdecimals"]):
         shape = "uint64_wrap" if img.big_uint and jsame(_wrap_uint64(expected), parsed, tol=o["maxdecimals"]) else "p:value"
         raise Violation("output:%s|%s" % (shape, region), "json.loads(ak.to_json(a)) differs from ak.to_list(a)", expected=show(expected), observed=show(parsed))
+    if isinstance(expected, list) and expected and isinstance(lay[0], L.Record):
+        # ak.to_json of an ak.Record (the element as the high-level __getitem__ returns it)
+        rkind, rtext = P.outcome(lambda: A.to_json(arr[0], **kw))
+        if rkind != "ok":
+            raise Violation("p:to_json_raised:record|" + region, "ak.to_json(a[0]) raised on a record: %s: %s" % (rkind, rtext[:200]), observed=[rkind, rtext[:300]])
+        try:
+            rparsed = _loads_strict(rtext)
+        except ValueError as e:
+            raise Violation("p:illformed:record|" + region, "ak.to_json(a[0]) is not well-formed JSON: %s" % e, expected=show(expected[0]), observed=rtext[:600])
+        if not jsame(expected[0], rparsed, tol=o["maxdecimals"]):
+            raise Violation("output:p:record|" + region, "json.loads(ak.to_json(a[0])) differs from ak.to_list(a[0])", expected=show(expected[0]), observed=show(rparsed))
+        tags.add("p:to_json_record")
+    aslist = _Image(o).of(P.pyvalue(A.to_list(arr)))          # the property in its own words (the model value is the anchor above)
+    if not jsame(aslist, parsed, tol=o["maxdecimals"]):
+        raise Violation("p:to_list_vs_to_json|" + region, "json.loads(ak.to_json(a)) differs from ak.to_list(a)", expected=show(aslist), observed=show(parsed))
+    tags.add("p:to_list_compared")
     # ---- ak.from_json(ak.to_json(a)) with the same strings: equals a up to the builder's unification
     names_clash = cx is not None and _type_has(T, lambda t: t[0] == "record" and not t[2] and cx[0] in [n for n, _ in t[1]] and cx[1] in [n for n, _ in t[1]])
     def _under_option(t):
@@ -1467,17 +1497,10 @@ def _bucket(v):
 
 
 KNOWN = {
-    # integer literals in [2^63, 2^64): Handler::Uint64 casts to int64_t
-    "c15_uint64_wrap_input": lambda case, v: _bucket(v).startswith("anchor:") and "uint64_wrap" in _bucket(v),
-    # uint64 leaves >= 2^63: NumpyArray::tojson_integer<uint64_t> casts to int64_t (ToJson has no unsigned method)
-    "c15_uint64_wrap_output": lambda case, v: _bucket(v).startswith("output:uint64_wrap"),
-    # Handler::Key hands the key to field_check(const char*): cut at an embedded NUL (two such keys may then collide)
-    "c15_nul_key_cut": lambda case, v: _bucket(v).startswith("rejected_wellformed:nul_key_cut_collision") or (
-        _bucket(v).startswith("anchor:") and "nul_key_cut" in _bucket(v)),
-    # Handler::String compares with strcmp: a string that continues after a NUL still matches a replacement string
-    "c15_nul_special_cut": lambda case, v: _bucket(v).startswith("anchor:") and "nul_special_cut" in _bucket(v),
-    # ToJson*::complex writes both parts with Impl::real, bypassing the replacement strings
-    "c15_complex_nonfinite": lambda case, v: _bucket(v).startswith("illformed:complex_nonfinite"),
-    # do_parse: an unfinished scalar as last document (no handler callback, stream at its end) is dropped silently
-    "c15_dangling_scalar": lambda case, v: _bucket(v).startswith("accepted_malformed:dangling_scalar"),
+    # Handler::Key hands the key to field_check(const char*): cut at an embedded NUL (two such keys may then collide).
+    # Exactly this shape: a violation that combines it with another difference (bucket "anchor:x+nul_key_cut") is not excused.
+    "c15_nul_key_cut": lambda case, v: _bucket(v).startswith("rejected_wellformed:nul_key_cut_collision") or _bucket(v) == "anchor:nul_key_cut",
+    # the other shapes that check_text / run_output still name in their buckets (uint64_wrap, nul_special_cut, complex_nonfinite,
+    # dangling_scalar) belong to findings that are fixed in /repo (known_findings.jsonl: status fixed): no predicate, a
+    # recurrence fails the run
 }
